@@ -8,16 +8,22 @@ ap.add_argument("-j", type=int, default=3)
 ap.add_argument("-tier", default="quick")
 ap.add_argument("-checks", default="")
 ap.add_argument("-seed", default="1")
+ap.add_argument("-first", action="store_true", help="only the first check listed in detected_by (else the property's own check)")
 ap.add_argument("ids", nargs="+")
 a = ap.parse_args()
-V = "/verif"
-ids = sorted(os.listdir(V + "/seeded")) if a.ids == ["all"] else a.ids
 os.makedirs("/tmp/matrix", exist_ok=True)
+# the checks run from a snapshot of the committed /verif, so that edits made meanwhile do not disturb them
+V = "/tmp/matrix/verif-snap"
+subprocess.run(["git", "-C", "/verif", "worktree", "remove", "--force", V], capture_output=True)
+subprocess.run(["git", "-C", "/verif", "worktree", "add", "--detach", V, "HEAD"], check=True, capture_output=True)
+ids = sorted(os.listdir(V + "/seeded")) if a.ids == ["all"] else a.ids
 
 def run(mid):
     d = os.path.join(V, "seeded", mid)
     meta = json.load(open(os.path.join(d, "meta.json")))
     checks = a.checks.split(",") if a.checks else sorted(set([meta["breaks_property"]] + meta.get("detected_by", [])))
+    if a.first and not a.checks:
+        checks = (meta.get("detected_by") or [meta["breaks_property"]])[:1]
     wt = "/tmp/matrix/wt-" + mid
     subprocess.run(["git", "-C", "/repo", "worktree", "remove", "--force", wt], capture_output=True)
     p = subprocess.run(["git", "-C", "/repo", "worktree", "add", "--detach", wt, "HEAD"], capture_output=True, text=True)
